@@ -48,6 +48,8 @@ type Outcome struct {
 	Late     []fd.Ev  `json:"late,omitempty"`
 	Unstable bool     `json:"unstable,omitempty"`
 	Suspicious bool   `json:"suspicious,omitempty"`
+	Crash    string   `json:"crash,omitempty"` // the worker process died while running this history: panic text
+	Hung     bool     `json:"hung,omitempty"`
 	Tries    int      `json:"tries,omitempty"`
 }
 
@@ -131,8 +133,8 @@ func runAll(seed uint64, hs []*Hist, nw int) []Outcome {
 		wg.Add(1)
 		go func(k int) {
 			defer wg.Done()
-			wk := &worker{worlds: map[string]*fd.World{}, seed: fmt.Sprintf("c04-%d-%d", seed, k)}
-			defer wk.close()
+			wk := newProcWorker(fmt.Sprintf("c04-%d-%d", seed, k))
+			defer wk.stop()
 			for i := range next {
 				outs[i] = wk.run(hs[i])
 			}
@@ -158,6 +160,10 @@ func modelFx() (np, rot, ann bool) {
 
 func main() {
 	debug.SetMemoryLimit(3 << 30)
+	if seed := os.Getenv(workerEnv); seed != "" {
+		workerMain(seed)
+		return
+	}
 	_ = logging.SetLogLevel("*", "fatal")
 	c := vlib.Init("C04")
 	defer c.Finish()
@@ -169,9 +175,15 @@ func main() {
 		if err := c.LoadReplay(&h); err != nil {
 			panic(err)
 		}
-		wk := &worker{worlds: map[string]*fd.World{}, seed: "replay"}
-		defer wk.close()
+		wk := newProcWorker("replay")
+		defer wk.stop()
 		out := wk.run(&h)
+		if out.Crash != "" {
+			fmt.Printf("THE WORKER PROCESS DIED running this history:\n%s\n", out.Crash)
+			c.Eval()
+			c.Fail(signature(crashName(out), &h), crashDesc(&h, out, true), h)
+			return
+		}
 		for i, o := range out.Obs {
 			b, _ := json.Marshal(o)
 			ob, _ := json.Marshal(h.Ops[i])
@@ -210,8 +222,8 @@ func main() {
 	tRun := time.Since(t0)
 
 	// direct oracles; one report per class, the first (smallest) history of the class
-	refWk := &worker{worlds: map[string]*fd.World{}, seed: fmt.Sprintf("c04-%d-ref", c.Seed)}
-	defer refWk.close()
+	refWk := newProcWorker(fmt.Sprintf("c04-%d-ref", c.Seed))
+	defer refWk.stop()
 	refs := &refCache{wk: refWk, m: map[string]refVal{}}
 	reported := map[string]bool{}
 	groups := map[string][]vlib.Failure{}
@@ -227,6 +239,23 @@ func main() {
 		for _, o := range h.Ops {
 			c.Count("mode:" + o.Mode)
 			c.Count(fmt.Sprintf("addrs:%d", len(o.Addrs)))
+		}
+		if out.Crash != "" {
+			// the process running this history died: a violation in itself
+			c.Count("crashed")
+			cl := "crash:" + h.Kind + ":" + h.Class
+			if reported[cl] || len(groups["crash:"+h.Kind]) >= 3 {
+				c.Count("oracle-failures-not-reported(same class)")
+				continue
+			}
+			reported[cl] = true
+			h2, rep := shrinkCrash(h)
+			g := "crash:" + h.Kind
+			if _, ok := groups[g]; !ok {
+				groupOrder = append([]string{g}, groupOrder...)
+			}
+			groups[g] = append(groups[g], vlib.Failure{Signature: signature(crashName(out), h2), Desc: crashDesc(h2, out, rep), Replay: h2})
+			continue
 		}
 		if out.Unstable {
 			unstable++
@@ -509,4 +538,23 @@ func coqBoth(h *Hist, out Outcome) string {
 	}
 	return fmt.Sprintf("(Build_both_case %s %s %s %s %s %s %s %s)", coqCase(h, out), vlib.CoqNat(chainLen), segdl,
 		vlib.CoqNat(h.Ops[0].Head), coqNatList(reqs), coqNatList(o.Hooks), coqNatList(o.Store), vlib.CoqNat(lat))
+}
+
+func crashName(out Outcome) string {
+	if out.Hung {
+		return "hang"
+	}
+	return "crash"
+}
+
+func crashDesc(h *Hist, out Outcome, reproduced bool) string {
+	what := "the process running the subscriber DIED during this history (a panic in a goroutine of the library cannot be recovered by the caller)"
+	if out.Hung {
+		what = "the subscriber did not come back from this history"
+	}
+	rep := "reproduced in a fresh process and shrunk"
+	if !reproduced {
+		rep = "NOT reproduced when run alone in a fresh process (history as it ran)"
+	}
+	return fmt.Sprintf("%s; %s: %s\n%s", what, rep, histKey(h), out.Crash)
 }
